@@ -261,6 +261,7 @@ class CBFSystem(System):
         call(other.jaccard_index, f)
 
     def _queries(self, cfg, st, keys, hf, bad):
+        pristine = self.clone(st)  # taken before any query of this state: the "untouched" twin
         f = st.impl
         before = bloomlib.bloom_observation(f, True)
         other = self._mk_other(cfg, keys, hf)
@@ -271,10 +272,20 @@ class CBFSystem(System):
             bad("C19", "cbf.queries_do_not_mutate", {"before": repr(before)[:300], "after": repr(after)[:300]})
         if bloomlib.bloom_observation(other, True) != ob:
             bad("C19", "cbf.set_ops_do_not_mutate_operand", {})
+        def full_obs(x):
+            g = x.impl
+            return (bloomlib.bloom_observation(g, True), call(g.estimate_elements), call(g.current_false_positive_rate),
+                    [call(g.check, k) for k in keys], call(str, g))
+
         if self.cur_depth <= cfg.get("twin_depth", 2):
-            div = twin_divergence(self, cfg, st, lambda q: self._ro(cfg, q.impl, keys, hf, self._mk_other(cfg, keys, hf)), lambda x: bloomlib.bloom_observation(x.impl, True))
+            steps = 3 if self.cur_depth <= cfg.get("twin2_depth", 1) else 1
+
+            def menu(c, x):
+                return [e for e in self.events(c, x) if e[0] in ("add", "remove", "clear") and (len(e) < 3 or e[2] <= 2)]
+
+            div = twin_divergence(self, cfg, pristine, lambda q: self._ro(cfg, q.impl, keys, hf, self._mk_other(cfg, keys, hf)), full_obs, steps, menu)
             if div is not None:
-                bad("C19", "cbf.queried_twin_diverges_one_step_later", div)
+                bad("C19", "cbf.queried_twin_diverges_later", div)
         bb = call(bytes, f)
         if bb[0] == "ok":
             fresh_load = call(lambda: CountingBloomFilter.frombytes(bb[1], hash_function=hf))
